@@ -72,6 +72,7 @@ type Contract struct {
 	InLoops  map[string]*LoopSpec // loops of inlined callees: "Reduce.0"
 	InlineCalls []string
 	IntWidth64 bool
+	AnyKinds   []string // type parameters verified both as a concrete (non-interface) and as an interface type
 	Dispatch []Dispatch
 	Pure     bool
 	Inline   bool
@@ -129,7 +130,7 @@ type PkgSpec struct {
 	Axioms    []*Clause
 }
 
-var kwRe = regexp.MustCompile(`^(pure|pred|ghostinit|ghost|func|props|requires|ensures|panics|pensures|modifies|ghostparam|uses|inlinecall|dispatch|intwidth|loop|ext|lemma|axiom|inline|trusted|decreases|ispure|params|results|end|sort|ufun|callback|before|after|invokes)\b`)
+var kwRe = regexp.MustCompile(`^(pure|pred|ghostinit|ghost|func|props|requires|ensures|panics|pensures|modifies|ghostparam|uses|inlinecall|dispatch|intwidth|anykinds|loop|ext|lemma|axiom|inline|trusted|decreases|ispure|params|results|end|sort|ufun|callback|before|after|invokes)\b`)
 
 func loadPkgSpec(dir, pkgPath string) (*PkgSpec, error) {
 	ps := &PkgSpec{Path: pkgPath, Macros: map[string]*Macro{}, Ghosts: map[string]*GhostField{}, Contracts: map[string]*Contract{}, Sorts: map[string]bool{}, UFuns: map[string]*UFun{}, Callbacks: map[string]*Contract{}}
@@ -401,6 +402,8 @@ func (ps *PkgSpec) parseFile(file, data string) error {
 				d.Ord, _ = strconv.Atoi(strings.Trim(fs[0][bi:], "[]"))
 			}
 			cur.Dispatch = append(cur.Dispatch, d)
+		case "anykinds":
+			cur.AnyKinds = append(cur.AnyKinds, strings.Fields(strings.ReplaceAll(rest, ",", " "))...)
 		case "intwidth":
 			cur.IntWidth64 = strings.TrimSpace(rest) == "64"
 		case "inlinecall":
